@@ -257,6 +257,10 @@ void check_shape(const Spec &sp, double x, const std::string &out, bool judge_ac
     VP_CHECK(err <= tol + 4 * ulp_of(x), "fp_accuracy", "'%s' is %.3Lg away from the argument (allowed %.3Lg + 4 ulp)", out.c_str(), err, tol);
 }
 
+// the printf_fp_reentrant target: the output callback re-enters __printf with floating conversions (printf_common.h)
+static int g_reenter_every = 0;
+static double g_reenter_dbl = 0;
+
 void t_printf_fp(Src &s, Case &c)
 {
     Spec sp;
@@ -304,9 +308,23 @@ void t_printf_fp(Src &s, Case &c)
     c.label(cl[strchr("fFeEgG", sp.conv) - "fFeEgG"]);
 
     pf::Result r;
+    if (g_reenter_every)
+    {
+        r.cap.reenter_every = g_reenter_every;
+        r.cap.reenter_fp = true;
+        r.cap.reenter_val = 42;
+        r.cap.reenter_dbl = g_reenter_dbl;
+    }
     pf::run_both(r, fmt.c_str(), args);
     VP_CHECK(r.igris_ret == (int)r.cap.calls && r.cap.calls == (long)r.cap.out.size(), "ret_vs_emitted", "returned %d, callback calls %ld",
              r.igris_ret, r.cap.calls);
+    if (g_reenter_every && r.cap.inner_runs)
+    {
+        char want[128];
+        snprintf(want, sizeof want, "%lld;%.3f;%10.4f", 42LL, g_reenter_dbl, g_reenter_dbl);
+        c.label("callback_reentered");
+        VP_CHECK(r.cap.inner_out == want, "reentrant_inner_output", "the call made from inside the output callback printed '%s', host '%s'", r.cap.inner_out.c_str(), want);
+    }
     if (!std::isfinite(x))
         return; // termination, memory safety and the count are all the statement asks here
     if (r.cap.out == r.host)
@@ -317,6 +335,19 @@ void t_printf_fp(Src &s, Case &c)
     c.label("differs_from_host");
     c.log(" igris='%s' host='%s'", r.cap.out.c_str(), r.host.c_str());
     check_shape(sp, x, r.cap.out);
+}
+
+void t_printf_fp_reentrant(Src &s, Case &c)
+{
+    g_reenter_every = (int)s.range(1, 4);
+    // multiples of 1/8: their %.3f / %.4f renderings are exact (no rounding, so no tie can make igris and the host differ)
+    g_reenter_dbl = (double)s.range(-99999, 99999) / 8.0;
+    struct Off
+    {
+        ~Off() { g_reenter_every = 0; }
+    } off;
+    c.log("callback re-enters __printf every %d character(s) with %.3f; ", g_reenter_every, g_reenter_dbl);
+    t_printf_fp(s, c);
 }
 
 // Wide fields. Widths of 41..1100 with the precisions of the quantified domain (0..17): everything is judged.
@@ -410,6 +441,9 @@ void t_printf_fp_wide(Src &s, Case &c)
 
 } // namespace
 
+VP_TARGET("printf_fp_reentrant", t_printf_fp_reentrant,
+          "the directives of printf_fp with an output callback that itself calls __printf (\"%lld;%.3f;%10.4f\" of a drawn multiple of 1/8: exactly representable, no rounding involved) every 1..4 characters: "
+          "the outer checks are unchanged and the inner output must equal the host's");
 VP_TARGET("printf_fp_wide", t_printf_fp_wide,
           "the same directives with widths 41..1100 (literal or *, negative * included) and precisions 0..17, or with precisions "
           "41..1100: return == emitted, ASan-clean, width, ISO shape (f/e; for g the width only); parsed-back accuracy judged for precisions <= 17 only "
